@@ -2,6 +2,7 @@ package harness
 
 import (
 	"bytes"
+	"strings"
 	"errors"
 	"fmt"
 	"io"
@@ -340,7 +341,8 @@ func wtPaths(wb, n int) []wtPath {
 
 func readModesFor(total int, thorough bool) []wtReadMode {
 	ms := []wtReadMode{{api: "ReadMessage"}, {rb: 16, api: "ReadMessage"}, {api: "Read5"},
-		{api: "ReadMessage", eofWith: true}, {api: "Read64K", eofWith: true}, {api: "Read64K"}, {rb: 16, api: "Read5", eofWith: true}}
+		{api: "ReadMessage", eofWith: true}, {api: "Read64K", eofWith: true}, {api: "Read64K"}, {rb: 16, api: "Read5", eofWith: true},
+		{rb: 16, api: "ReadMessage", eofWith: true}, {rb: 64, api: "Read64K", eofWith: true}}
 	if total <= 70000 {
 		ms = append(ms, wtReadMode{chunk: 1, api: "ReadMessage"}, wtReadMode{rb: 16, chunk: 1, api: "Read1"})
 	}
@@ -509,6 +511,69 @@ func init() {
 			c.Res.States += distinct
 			c.Res.Transitions += n
 			c.Note("all sequences of 2 (thorough 3) messages over 8 boundary lengths x both kinds with rotating write paths on one connection, every writer configuration")
+		})
+	}
+	// prepared messages: several prepared first, written afterwards (a broadcast prepares once and writes many times)
+	for _, prop := range []string{"C13", "C14"} {
+		prop := prop
+		register(prop, "prepared-later", false, func(c *Ctx) {
+			var distinct int64
+			lens := []int{0, 5, 125, 126, 200, 4096, 65536}
+			for _, server := range []bool{true, false} {
+				for _, la := range lens {
+					for _, lb := range lens {
+						for _, order := range []string{"A,B", "B,A", "A,B,A", "A,A"} {
+							id := fmt.Sprintf("prepared later server=%v | prepare text:%d then binary:%d, write %s", server, la, lb, order)
+							distinct++
+							c.Case(id, func() []string {
+								ma, mb := wtMsg{false, wtPayload(la, false)}, wtMsg{true, wtPayload(lb, true)}
+								pa, err1 := wt.NewPreparedMessage(wt.TextMessage, append([]byte(nil), ma.Data...))
+								pb, err2 := wt.NewPreparedMessage(wt.BinaryMessage, append([]byte(nil), mb.Data...))
+								if err1 != nil || err2 != nil {
+									return []string{fmt.Sprintf("write-error[prepared-later]: %v %v (%s)", err1, err2, id)}
+								}
+								// each prepared message goes to two connections (its frame is built on first use)
+								var fails []string
+								for conn := 0; conn < 2; conn++ {
+									st := newFakeStream(nil)
+									c1 := wt.NewConn(nil, st, server, 0, 0, nil, nil, nil)
+									var want []wtMsg
+									for _, w := range strings.Split(order, ",") {
+										pm, m := pa, ma
+										if w == "B" {
+											pm, m = pb, mb
+										}
+										if err := c1.WritePreparedMessage(pm); err != nil {
+											return []string{fmt.Sprintf("write-error[prepared-later]: %v (%s)", err, id)}
+										}
+										want = append(want, m)
+									}
+									if prop == "C14" {
+										var wb []byte
+										for _, m := range want {
+											wb = append(wb, wtEncode(m, 0)...)
+										}
+										if !bytes.Equal(st.out, wb) {
+											d := wtDecode(st.out)
+											fails = append(fails, fmt.Sprintf("wire-format[prepared-later server=%v]: connection %d emitted %s tail=%s, expected %s (%s)", server, conn+1, fmtWtMsgs(d.Msgs), d.Tail, fmtWtMsgs(want), id))
+										}
+										continue
+									}
+									got, rerr, _, _ := wtReadAll(st.out, wtReadMode{api: "ReadMessage"}, 0)
+									if !wtMsgsEqual(got, want) {
+										fails = append(fails, fmt.Sprintf("round-trip[prepared-later server=%v]: connection %d: wrote prepared %s, peer read %s then %v (%s)", server, conn+1, fmtWtMsgs(want), fmtWtMsgs(got), rerr, id))
+									}
+								}
+								return fails
+							})
+						}
+					}
+				}
+			}
+			c.Res.Distinct = distinct
+			c.Res.States += distinct
+			c.Res.Transitions += distinct
+			c.Note("two prepared messages built first and written afterwards in every order (also twice, also to a second connection): each write emits that message's own frame")
 		})
 	}
 	// a writer that has been closed stays closed: a late Close or Write on it has no effect on the message
